@@ -399,6 +399,11 @@ fn tid(t: usize) -> u32 {
 
 fn symbol_text(c: &RunCase, i: usize) -> String {
     let leaf = leaf_of(&c.mods[i].0);
+    // modules of one CodeView group are copies of one binary: same symbol file (up to the MODULE line's name)
+    let i = match c.cv[i] {
+        Some(g) => 100 + g as usize,
+        None => i,
+    };
     let mut s = format!("MODULE Linux arm64 {:032X}0 {leaf}\n", 0xabcd_0000u64 + i as u64);
     s.push_str(&format!("FILE 0 src/m{i}.c\nFILE 1 src/inl{i}.h\n"));
     s.push_str(&format!("INLINE_ORIGIN 0 inlined_{i}\n"));
